@@ -15,11 +15,53 @@ import (
 
 type C11Case struct {
 	G GenomeSpec `json:"genome"`
+	// Prior, when present, describes an earlier state in which the same genome object was already expressed once
+	// (as Organism.UpdatePhenotype and the mutators do): other enabled flags / weights, same or another network id.
+	Prior *C11Prior `json:"prior,omitempty"`
+}
+
+type C11Prior struct {
+	Enabled    []bool    `json:"enabled"`
+	Weights    []float64 `json:"weights"`
+	ModEnabled []bool    `json:"modules_enabled"`
+	NetId      int       `json:"net_id"`
 }
 
 func GenC11() *rapid.Generator[C11Case] {
 	gg := genGenomeSpec(GenomeCfg{Modules: true, MinGenes: 1})
-	return rapid.Custom(func(t *rapid.T) C11Case { return C11Case{G: gg.Draw(t, "genome")} })
+	return rapid.Custom(func(t *rapid.T) C11Case {
+		c := C11Case{G: gg.Draw(t, "genome")}
+		if rapid.IntRange(0, 2).Draw(t, "expressed before") == 0 {
+			return c
+		}
+		p := &C11Prior{NetId: c.G.Id}
+		if rapid.IntRange(0, 3).Draw(t, "other net id") == 0 {
+			p.NetId = c.G.Id + 1
+		}
+		mode := rapid.IntRange(0, 2).Draw(t, "prior flags")
+		for _, g := range c.G.Genes {
+			p.Enabled = append(p.Enabled, g.En)
+			p.Weights = append(p.Weights, g.W)
+		}
+		switch mode {
+		case 0: // same number of enabled genes, other genes (a permutation of the flags)
+			p.Enabled = rapid.Permutation(p.Enabled).Draw(t, "flag permutation")
+		case 1:
+			for i := range p.Enabled {
+				p.Enabled[i] = rapid.Bool().Draw(t, "prior enabled")
+			}
+		}
+		if rapid.Bool().Draw(t, "other weights") {
+			for i := range p.Weights {
+				p.Weights[i] = rapid.Float64Range(-3, 3).Draw(t, "prior weight")
+			}
+		}
+		for _, m := range c.G.Modules {
+			p.ModEnabled = append(p.ModEnabled, m.En != (rapid.IntRange(0, 3).Draw(t, "prior module flag") == 0))
+		}
+		c.Prior = p
+		return c
+	})
 }
 
 type linkKey struct {
@@ -76,6 +118,28 @@ func sameIdSet(got []int64, want map[int64]bool) bool {
 
 func CheckC11(c C11Case, rec *Rec) error {
 	g := c.G.Build()
+	if p := c.Prior; p != nil && len(p.Enabled) == len(g.Genes) && len(p.Weights) == len(g.Genes) && len(p.ModEnabled) == len(g.ControlGenes) {
+		// the genome object was expressed before in another state, then changed through its exported fields
+		for i, gn := range g.Genes {
+			gn.IsEnabled, gn.Link.ConnectionWeight = p.Enabled[i], p.Weights[i]
+		}
+		for i, cg := range g.ControlGenes {
+			cg.IsEnabled = p.ModEnabled[i]
+		}
+		if _, err := g.Genesis(p.NetId); err != nil {
+			rec.Class("earlier expression failed (no enabled structure)")
+		}
+		for i, gn := range g.Genes {
+			gn.IsEnabled, gn.Link.ConnectionWeight = c.G.Genes[i].En, c.G.Genes[i].W
+		}
+		for i, cg := range g.ControlGenes {
+			cg.IsEnabled = c.G.Modules[i].En
+		}
+		rec.Class("genome expressed before in another state")
+		if p.NetId == c.G.Id {
+			rec.Class("expressed before under the same network id")
+		}
+	}
 	net, err := g.Genesis(c.G.Id)
 	if err != nil {
 		return fmt.Errorf("Genesis returned error: %v", err)
